@@ -20,11 +20,11 @@ def plan(ctx):
     k = P.per_interp_shards(ctx)
     for v in ctx.producers:
         if ctx.tier == "quick":
-            cases = P.corpus_cases(ctx, v, n_files=10, n_w3=30, modes=2, max_file_bytes=12000, w3_size=0.6, w1_max_bytes=30000,
+            cases = P.corpus_cases(ctx, v, n_w9=0, n_files=10, n_w3=30, modes=2, max_file_bytes=12000, w3_size=0.6, w1_max_bytes=30000,
                                    w4_filter=lambda i: i.startswith(("sig-", "doc-", "const-", "dead-", "future-", "eval", "single", "opt", "comp", "class", "fold-tuple-5")))
             cases += P.w9_cases(ctx, 96)
         else:
-            cases = P.corpus_cases(ctx, v, n_files=300, n_w3=600, modes=30, max_file_bytes=60000, w1_max_bytes=150000, max_w4_bytes=40000)
+            cases = P.corpus_cases(ctx, v, n_w9=0, n_files=300, n_w3=600, modes=30, max_file_bytes=60000, w1_max_bytes=150000, max_w4_bytes=40000)
             cases += P.w9_cases(ctx, 2400)
         shards.extend(P.split(ctx, v, cases, k, "C12:", extra={"docs": True}))
         # light pass over a much larger corpus: every call made twice on the same argument, results compared
